@@ -207,7 +207,7 @@ def gen_history(r, clsname, nops, only_valid=False):
             ops.append(["update", {k: r.randrange(len(P[k])) for k in ks}])
         elif x < 0.88:
             k = r.choice(names)
-            ops.append(["set", k, r.randrange(len(P[k]))])
+            ops.append(["set" if r.random() < 0.6 else "setv", k, r.randrange(len(P[k]))])
         elif x < 0.94:
             ks = r.sample(names, min(len(names), r.randint(0, 2)))
             ops.append(["clone", {k: r.randrange(len(P[k])) for k in ks}])
@@ -246,6 +246,12 @@ def run_history(h, check_every=True, qsubset=None, r=None, stop_on_first=True):
                     obj.update(**{k: copy.deepcopy(P[k][j]) for k, j in op[1].items()})
                 elif op[0] == "set":
                     setattr(obj, op[1], copy.deepcopy(P[op[1]][op[2]]))
+                elif op[0] == "setv":
+                    obj._validate_every_param_set = True
+                    try:
+                        setattr(obj, op[1], copy.deepcopy(P[op[1]][op[2]]))
+                    finally:
+                        obj._validate_every_param_set = False
                 elif op[0] == "clone":
                     obj = obj.clone(**{k: copy.deepcopy(P[k][j]) for k, j in op[1].items()})
                 elif op[0] == "deepcopy":
@@ -296,6 +302,8 @@ def describe(h):
             out.append("obj.update(" + ", ".join(f"{k}={show(P[k][j])}" for k, j in op[1].items()) + ")")
         elif op[0] == "set":
             out.append(f"obj.{op[1]} = {show(P[op[1]][op[2]])}")
+        elif op[0] == "setv":
+            out.append(f"obj._validate_every_param_set = True; obj.{op[1]} = {show(P[op[1]][op[2]])}; obj._validate_every_param_set = False")
         elif op[0] == "clone":
             out.append("obj = obj.clone(" + ", ".join(f"{k}={show(P[k][j])}" for k, j in op[1].items()) + ")")
         elif op[0] == "deepcopy":
